@@ -223,3 +223,92 @@ pub fn replay_c04(line: &Value, out: &mut Out, stats: &mut ReplayStats) {
     out.emit(json!({"verdict": "mismatch", "ev": "neigh", "d": depth, "c": c.json(), "expected": line["m"], "got": ev}));
   }
 }
+
+// ------------------------------------------------------------------------------------------ C14
+use cdshealpix::compass_point::{Cardinal, Ordinal};
+pub fn card(name: &str) -> Cardinal { match name { "S" => Cardinal::S, "E" => Cardinal::E, "N" => Cardinal::N, "W" => Cardinal::W, _ => panic!("bad cardinal") } }
+pub fn ordi(name: &str) -> Ordinal { match name { "SE" => Ordinal::SE, "SW" => Ordinal::SW, "NE" => Ordinal::NE, "NW" => Ordinal::NW, _ => panic!("bad ordinal") } }
+pub const CARDS: [&str; 4] = ["S", "E", "W", "N"];
+pub const ORDS: [&str; 4] = ["SE", "SW", "NE", "NW"];
+
+fn cells_json(depth: u8, v: &[u64]) -> Value { Value::Array(v.iter().map(|h| cell_json(depth, *h)).collect()) }
+fn increasing(v: &[u64]) -> i32 { if v.windows(2).all(|w| w[0] < w[1]) { 1 } else { 0 } }
+
+pub fn edges_event(depth: u8, c: Cell, dd: u8) -> Value {
+  use cdshealpix::nested::Layer;
+  let h = hash_of_cell(depth, c);
+  let deep = depth + dd;
+  let layer = nested::get_or_create(depth);
+  let mut p = 0;
+  let mut take = |r: Option<Box<[u64]>>| -> Vec<u64> { match r { Some(v) => v.to_vec(), None => { p += 1; vec![] } } };
+  let ie = take(guarded(|| Layer::internal_edge(h, dd)));
+  let ies = take(guarded(|| Layer::internal_edge_sorted(h, dd)));
+  let ee = take(guarded(|| layer.external_edge(h, dd)));
+  let ees = take(guarded(|| layer.external_edge_sorted(h, dd)));
+  // free-function variants must agree with the methods (and not panic for depth + delta <= 29)
+  let f_ie = guarded(|| nested::internal_edge(depth, h, dd));
+  let f_ies = guarded(|| nested::internal_edge_sorted(depth, h, dd));
+  let f_ee = guarded(|| nested::external_edge(depth, h, dd));
+  let f_ees = guarded(|| nested::external_edge_sorted(depth, h, dd));
+  let freep = [&f_ie, &f_ies, &f_ee, &f_ees].iter().filter(|r| r.is_none()).count();
+  let free_same = f_ie.as_ref().map_or(true, |v| v.to_vec() == ie) && f_ies.as_ref().map_or(true, |v| v.to_vec() == ies)
+    && f_ee.as_ref().map_or(true, |v| v.to_vec() == ee) && f_ees.as_ref().map_or(true, |v| v.to_vec() == ees);
+  let mut side = serde_json::Map::new();
+  let mut corner = serde_json::Map::new();
+  let mut icorner = serde_json::Map::new();
+  let mut ipart = serde_json::Map::new();
+  let st = guarded(|| layer.external_edge_struct(h, dd));
+  let st2 = guarded(|| nested::external_edge_struct(depth, h, dd));
+  let mut struct_same = 1;
+  for o in ORDS.iter() {
+    match &st { Some(s) => { side.insert(o.to_string(), cells_json(deep, s.get_edge(&ordi(o)))); }, None => { side.insert(o.to_string(), json!([])); } }
+    if let (Some(a), Some(b)) = (&st, &st2) { if a.get_edge(&ordi(o)) != b.get_edge(&ordi(o)) { struct_same = 0; } }
+    let part = take(guarded(|| nested::internal_edge_part(h, dd, &ordi(o))));
+    ipart.insert(o.to_string(), cells_json(deep, &part));
+  }
+  for d in CARDS.iter() {
+    match &st { Some(s) => { corner.insert(d.to_string(), s.get_corner(&card(d)).map_or(json!([]), |x| cell_json(deep, x))); }, None => { corner.insert(d.to_string(), json!([])); } }
+    if let (Some(a), Some(b)) = (&st, &st2) { if a.get_corner(&card(d)) != b.get_corner(&card(d)) { struct_same = 0; } }
+    match guarded(|| nested::internal_corner(h, dd, &card(d))) { Some(x) => { icorner.insert(d.to_string(), cell_json(deep, x)); }, None => { p += 1; icorner.insert(d.to_string(), json!([])); } }
+  }
+  if st.is_none() { p += 1; }
+  if st2.is_none() { struct_same = 0; }
+  json!({"ev": "edges", "d": depth, "dd": dd, "c": c.json(), "p": p, "ie": cells_json(deep, &ie), "ies": cells_json(deep, &ies), "ies_inc": increasing(&ies),
+         "ee": cells_json(deep, &ee), "ees": cells_json(deep, &ees), "ees_inc": increasing(&ees), "side": side, "corner": corner,
+         "icorner": icorner, "ipart": ipart, "free": if free_same { 1 } else { 0 }, "freep": freep, "ssame": struct_same})
+}
+
+pub fn record_c14(rng: &mut Rng, count: u64, out: &mut Out) {
+  for k in 0..count {
+    let dd = 1 + rng.below(if k % 10 == 0 { 5 } else { 3 }) as u8;
+    let depth = if k % 4 == 0 { 29 - dd } else { rng.below(30 - dd as u64) as u8 };
+    let n = 1u32 << depth;
+    let c = if rng.below(3) != 0 { special_cells(rng, depth) } else { Cell { b: rng.below(12) as u8, i: rng.below(n as u64) as u32, j: rng.below(n as u64) as u32 } };
+    out.emit(edges_event(depth, c, dd));
+  }
+}
+
+pub fn replay_c14(line: &Value, out: &mut Out, stats: &mut ReplayStats) {
+  let depth = line["d"].as_u64().unwrap() as u8;
+  let dd = line["dd"].as_u64().unwrap() as u8;
+  let c = Cell::from_json(&line["c"]);
+  let ev = edges_event(depth, c, dd);
+  stats.calls += 20;
+  let as_set = |v: &Value| -> Vec<Cell> { let mut s: Vec<Cell> = v.as_array().unwrap().iter().map(Cell::from_json).collect(); s.sort(); s };
+  let as_set_nodup = |v: &Value| -> Vec<Cell> { let s = as_set(v); let mut t = s.clone(); t.dedup(); if t.len() != s.len() { vec![] } else { s } };
+  let mut ok = ev["p"] == 0 && ev["free"] == 1 && ev["freep"] == 0 && ev["ssame"] == 1 && ev["ies_inc"] == 1 && ev["ees_inc"] == 1;
+  ok = ok && ev["ie"] == line["ie"];
+  ok = ok && as_set_nodup(&ev["ies"]) == as_set(&line["ie"]);
+  ok = ok && as_set_nodup(&ev["ee"]) == as_set(&line["ee"]) && as_set_nodup(&ev["ees"]) == as_set(&line["ee"]);
+  for o in ORDS.iter() {
+    ok = ok && as_set_nodup(&ev["side"][*o]) == as_set(&line["side"][*o]);
+    ok = ok && as_set_nodup(&ev["ipart"][*o]) == as_set(&line["ipart"][*o]);
+  }
+  for d in CARDS.iter() {
+    ok = ok && ev["corner"][*d] == line["corner"][*d] && ev["icorner"][*d] == line["icorner"][*d];
+  }
+  if !ok {
+    stats.bad += 1;
+    if stats.bad <= MAX_MISMATCH_LINES { out.emit(json!({"verdict": "mismatch", "ev": "edges", "d": depth, "dd": dd, "c": c.json(), "expected": line, "got": ev})); }
+  }
+}
